@@ -79,3 +79,86 @@ func pokeEmpty(pv reflect.Value, md protoreflect.MessageDescriptor, depth int) i
 	}
 	return n
 }
+
+// nilElems switches build to the representation in which every EMPTY message element of a repeated message
+// field is a nil pointer. protobuf-go reads a nil element as an empty message (and encodes it as a zero-length
+// element), so for Google V2 messages the contents are the same as with an allocated empty element; gogo and
+// golang/protobuf V1 refuse such a message, the variant is not applied to their types.
+var nilElems bool
+
+// nilElemsPoked counts the elements build() replaced since it was last reset.
+var nilElemsPoked int
+
+// pokeNilElems rewrites empty message elements of repeated message fields to nil pointers; returns the count.
+func pokeNilElems(pv reflect.Value, md protoreflect.MessageDescriptor, depth int) int {
+	if pv.Kind() != reflect.Ptr || pv.IsNil() || pv.Elem().Kind() != reflect.Struct || depth > 6 {
+		return 0
+	}
+	sv := pv.Elem()
+	st := sv.Type()
+	n := 0
+	for i := 0; i < st.NumField(); i++ {
+		tag := st.Field(i).Tag.Get("protobuf")
+		if tag == "" || !sv.Field(i).CanSet() {
+			continue
+		}
+		parts := strings.Split(tag, ",")
+		if len(parts) < 2 {
+			continue
+		}
+		num, err := strconv.Atoi(parts[1])
+		if err != nil {
+			continue
+		}
+		fd := md.Fields().ByNumber(protoreflect.FieldNumber(num))
+		if fd == nil || fd.Kind() != protoreflect.MessageKind || fd.IsMap() {
+			continue
+		}
+		fv := sv.Field(i)
+		switch {
+		case fd.IsList():
+			if fv.Kind() != reflect.Slice {
+				continue
+			}
+			for k := 0; k < fv.Len(); k++ {
+				ev := fv.Index(k)
+				if ev.Kind() != reflect.Ptr || ev.IsNil() {
+					continue
+				}
+				if isEmptyStruct(ev.Elem()) {
+					ev.Set(reflect.Zero(ev.Type()))
+					n++
+				} else {
+					n += pokeNilElems(ev, fd.Message(), depth+1)
+				}
+			}
+		default:
+			n += pokeNilElems(fv, fd.Message(), depth+1)
+		}
+	}
+	return n
+}
+
+// isEmptyStruct: every exported field of the generated struct holds its zero value (nil pointers/slices/maps, 0, "").
+func isEmptyStruct(sv reflect.Value) bool {
+	if sv.Kind() != reflect.Struct {
+		return false
+	}
+	for i := 0; i < sv.NumField(); i++ {
+		if sv.Type().Field(i).Tag.Get("protobuf") == "" && sv.Type().Field(i).Tag.Get("protobuf_oneof") == "" && !strings.HasPrefix(sv.Type().Field(i).Name, "XXX_unrecognized") && sv.Type().Field(i).Name != "unknownFields" {
+			continue
+		}
+		f := sv.Field(i)
+		switch f.Kind() {
+		case reflect.Slice, reflect.Map:
+			if f.Len() != 0 {
+				return false
+			}
+		default:
+			if !f.IsZero() {
+				return false
+			}
+		}
+	}
+	return true
+}
